@@ -1,21 +1,8 @@
+import propcfg
 HOOK_COMMITS = []
 NOTES = ("Every check: lake build of the property's theorem module + #print axioms audit, cargo rebuild of the harness "
          "against /repo's working tree, correspondence run, specification oracle. See DESIGN.md.")
-
 PENDING = "check under construction in this build phase (model and correspondence not committed yet); see DESIGN.md section 5"
-
-CHECKS = {
-    "C11": {
-        "text": ("Theorem accepts_iff_legal: the transcription of OutlineBuilder::add_point/end_path accepts a point sequence of ANY length "
-                 "iff it satisfies an independent declarative legality predicate (wrap-around included); accepted contours are returned unchanged, "
-                 "empty ones dropped. The model is tied to the code by running Glyph::parse_raw on all sequences up to length 7/9 plus random "
-                 "outlines and comparing with the compiled model; the executable oracle legalB (proved equivalent to the declarative rule) is "
-                 "evaluated on the implementation's own verdict."),
-        "design_ref": "5 / C11, Appendix A",
-        "note": "trusted: Lean kernel, the three standard axioms, the harness and driver glue, quick-xml tokenising; u32 counter modelled as Nat",
-        "technique": "Lean 4 theorem (induction over the point list, iff with a declarative spec) + exhaustive-to-length-7 correspondence",
-    },
-}
-
+CHECKS = propcfg.MANIFESTS
 ALL = ["C%02d" % i for i in range(1, 21)]
 NOT_CLAIMED = {p: PENDING for p in ALL if p not in CHECKS}
